@@ -25,7 +25,9 @@ META = {
     "bounds": ["device type lists of length 0..4 with symbolic strictly ascending values in 0..253",
                "adversarial answer streams of length <= 6 (thorough 7), every answer none / clean / framing "
                "error with a symbolic byte", "group membership: see level_note",
-               "SetGroups: destinations short/int/group/broadcast x 7 requested sets x symbolic current state",
+               "SetGroups: destinations short / int / group (incl. a group the request leaves) / broadcast / "
+               "broadcast-unaddressed (two unaddressed units and an addressed bystander) x 7 requested sets x "
+               "symbolic current state",
                "two runs in one process (independent units): SetGroups to group/broadcast destinations with "
                "different requests, QueryDeviceTypes twice, answer streams of length 3 twice"],
     "stubs": ["isinstance/int shims"],
